@@ -88,7 +88,9 @@ func TestC08(t *testing.T) {
 			crs := st.s.ERS("ns", e.Status.Canary.ReplicaSet)
 			if crs != nil && !w.ERSCondTrue(crs, v1.ConditionTypeCanaryFailed) && (w.AnnotTrue(e, "canary-paused") || w.ERSCondTrue(crs, v1.ConditionTypeCanaryPaused)) {
 				out := w.Step(t, st.sc, st.s, evb("kubectl", edsKey, "canary-unpause"))
-				if out.CmdErr == nil {
+				// whether the command acts or refuses (it refuses when the annotations already say "unpaused"), the canary
+				// must not stay paused afterwards unless the user's pause annotation says so
+				{
 					r := w.Closure(t, st.sc, out.Next, w.ClosureOpts{SkipJumps: true, MaxStep: 10 * time.Second})
 					run.Count("antecedent:C08/unpause-closure", 1)
 					run.Count("closures", 1)
@@ -96,10 +98,10 @@ func TestC08(t *testing.T) {
 						fe := r.Final.EDS("ns", "foo")
 						frs := r.Final.ERS("ns", crs.Name)
 						stillCanary := fe != nil && fe.Status.Canary != nil && fe.Status.Canary.ReplicaSet == crs.Name
-						if stillCanary && frs != nil && !w.ERSCondTrue(frs, v1.ConditionTypeCanaryFailed) && w.AnnotTrue(fe, "canary-unpaused") &&
+						if stillCanary && frs != nil && !w.ERSCondTrue(frs, v1.ConditionTypeCanaryFailed) && !w.AnnotTrue(fe, "canary-paused") &&
 							(fe.Status.State == v1.ExtendedDaemonSetStatusStateCanaryPaused || w.ERSCondTrue(frs, v1.ConditionTypeCanaryPaused)) {
 							run.Violate(h.Violation{Signature: "C08/unpause: a paused canary does not resume after canary unpause", Monitor: "C08/closure",
-								Message: fmt.Sprintf("state=%s Canary-Paused=%v", fe.Status.State, w.ERSCondTrue(frs, v1.ConditionTypeCanaryPaused)),
+								Message: fmt.Sprintf("state=%s Canary-Paused=%v command error=%v", fe.Status.State, w.ERSCondTrue(frs, v1.ConditionTypeCanaryPaused), out.CmdErr),
 								Replay:  map[string]interface{}{"scenario": st.sc.Name, "start_state": st.s.Describe(), "then": "kubectl-eds canary unpause, fair rounds", "final_state": r.Final.Describe()}})
 						}
 					}
